@@ -1,5 +1,5 @@
 import Qats.Model.Peaks
-import Qats.Lemmas.Rainflow
+import Qats.Lemmas.PreludeSort
 import Mathlib.Tactic
 /-!
 Single-pass scan of `globalMaxima`: invariant over prefixes, for an arbitrary fixed level `m`.
